@@ -18,7 +18,7 @@ pub fn property() -> Property {
             Part {
                 name: "sweep",
                 quick: 60_000,
-                thorough: 2_000_000,
+                thorough: 6_000_000,
                 single_shard: false, supplementary: false,
                 run: |cfg| {
                     run_part(
@@ -40,7 +40,7 @@ pub fn property() -> Property {
             Part {
                 name: "lines",
                 quick: 12_000,
-                thorough: 200_000,
+                thorough: 600_000,
                 single_shard: false, supplementary: false,
                 run: |cfg| {
                     run_part(
@@ -102,7 +102,14 @@ pub fn check_sweep(case: &PosCase, ctx: &mut Ctx) -> Result<(), String> {
     let before = eng::snap(&b);
     let before_fen = eng::eng_fen(&b);
     let legal: Vec<Mv> = p.legal_moves();
-    let pseudo: Vec<Move> = b.generate_pseudo_legal_moves();
+    let mut pseudo: Vec<Move> = b.generate_pseudo_legal_moves();
+    let n_full = pseudo.len();
+    // ... and the objects the capture / promotion generator hands out for the same moves (the quiescence search makes and
+    // unmakes THOSE)
+    pseudo.extend(b.generate_pseudo_legal_non_quiescent_moves());
+    if pseudo.len() > n_full {
+        ctx.class("objects_from_the_capture_generator");
+    }
     let mut illegal = 0;
     for mv in &pseudo {
         let u = mv.to_uci_string();
